@@ -75,6 +75,10 @@ func genC12(rt *rapid.T) c12Case {
 			return patternBytes(n, rapid.Byte().Draw(rt, label+"seed"), delim)
 		default:
 			n := rapid.IntRange(25, 3*4096+64).Draw(rt, label+"len")
+			if rapid.IntRange(0, 11).Draw(rt, label+"huge") == 7 {
+				// many internal buffers long (beyond 64 KiB as well)
+				n = rapid.SampledFrom([]int{20 * 4096, 65535, 65536, 65537, 70000, 131072 + 5}).Draw(rt, label+"hugelen")
+			}
 			return patternBytes(n, rapid.Byte().Draw(rt, label+"seed"), delim)
 		}
 	}
